@@ -153,7 +153,17 @@ def _run(sim, case, r):
         try:
             if delay:
                 await asyncio.sleep(delay / 1000)
-            async for c in segment_fetcher(sim.app, list(ask), timeout=timeout_ms, retry_times=rt_arg, validator=validator):
+            # the name in any legal form (list / tuple / one-shot generator / iterator / URI-free wire), and the validator either
+            # passed to the fetcher or installed as the application's data validator (then the fetcher gets none)
+            form = case.get('name_form', 0) % 5
+            comps_ = list(ask)
+            name_arg = comps_ if form == 0 else tuple(comps_) if form == 1 else (c_ for c_ in comps_) if form == 2 else \
+                iter(comps_) if form == 3 else T.enc_tlv(7, b''.join(comps_))
+            kw = {'validator': validator}
+            if case.get('validator_via') == 'app':
+                sim.app.data_validator = validator
+                kw = {}
+            async for c in segment_fetcher(sim.app, name_arg, timeout=timeout_ms, retry_times=rt_arg, **kw):
                 out.append(None if c is None else bytes(c))
             box['end'] = 'done'
         except Exception as e:
@@ -286,6 +296,7 @@ def _case(draw):
             'version': draw(st.one_of(st.none(), st.sampled_from([0, 1, 255, 256, 2 ** 32]))), 'loss': loss, 'fault': fault,
             'twin': draw(st.sampled_from([None, None, 0, 1, 40, 60])),
             'empty_seg': draw(st.sampled_from([None, None, None, 0, 1, 2, 6])),
+            'name_form': draw(st.integers(0, 4)), 'validator_via': draw(st.sampled_from(['arg', 'arg', 'app'])),
             'timeout': draw(st.sampled_from([100, 100, 4000, 1000, 50])), 'latency_ms': draw(st.sampled_from([0, 0, 20, 150, 400]))}
 
 
